@@ -667,7 +667,7 @@ func c18Sessions(r *vfRng) [][]c18Step {
 		}
 	}
 	// mixed commands, three steps
-	for i := 0; i < vfScale(60, 1500); i++ {
+	for i := 0; i < vfScale(60, 300); i++ {
 		var st []c18Step
 		for j := 0; j < 3; j++ {
 			c := guarded[r.Intn(len(guarded))]
@@ -685,7 +685,7 @@ func TestVerifC18(t *testing.T) {
 	rep := vfNewReport("C18", "cluster: every inter-node command type x payload (present/absent/other kind; JOIN voter or not) x action outcome x credential store (none, or 1-3 generated entries over users {a,b,*}, passwords {p,q}, perms from the documented set) x presentation (none, a/p, a/q, b/p, unknown user, empty user), one frame per TCP connection, all bytes read until close; plus sequences of 2-3 commands with different presentations on ONE connection (every ordered pair of presentations per command, and random mixed triples); a store is non-trivial when it authorises some and refuses other cases; distinct by store text")
 	defer rep.Write()
 	r := vfNewRng(18)
-	nStores := vfScale(16, 400)
+	nStores := vfScale(16, 150)
 	cases := c18Cases()
 
 	type storeSpec struct {
